@@ -85,11 +85,14 @@ claim('C08',
       'tables of numqi.gate._pauli compose to identities, single and batched paths use the same tables, full_matrix / '
       'from_full_matrix / from_np_list name the same operator for the same bits, the letter->matrix table holds the canonical Pauli '
       'of each letter (E1, 22 obligations); the XZ=-iY phase folding coefficients of encoders and decoder cancel mod 4 and the sign '
-      'bits are split / recombined consistently (E2). The group law (phase carries of products and inverses), unpackbits byte order '
-      'and Hermiticity flags are value-level on a finite domain and NOT decided.',
+      'bits are split / recombined consistently and reduced mod 4 (E2); the group law of PauliOperator: the product overlap is z(left).x(right) '
+      'in the decoder\'s X^x Z^z convention and the literal carry arithmetic equals c1+c2+2*overlap mod 4 on all 32 bit combinations, '
+      'inverse() equals -c + 2 x.z on all 8, commutate_with is the symplectic form (E4: the checker\'s own integer evaluator on the literal '
+      'formulas); rand_pauli fixes hermiticity through the low phase bit in both arms (E3). unpackbits byte order and the '
+      'multi-qubit batch paths are value-level and NOT decided.',
       'Trusted: symplectic convention X=(1,0), Z=(0,1), Y=(1,1); closed constant folding of the literal tables (sa/tables.py).',
       'ast extraction + constant folding of literal encoding tables; commuting-diagram check on the 4-letter / 4-phase domain',
-      'DESIGN.md 4 (E1), 5 C08')
+      'DESIGN.md 4 (E1-E4), 5 C08')
 claim('C12',
       'Decides the index-convention clause for symbolic, unequal dim_in and dim_out: each of the 8 conversion / application routines '
       'of numqi.channel returns a tensor of its declared axis type (kraus (k,out,in); choi (in,out|in\',out\'); super (out,out\'|in,in\'); '
